@@ -17,6 +17,12 @@ FINDINGS = [
          "(nothing is written outside the output directory; with the right keyword it would fail later because a dict is not a Module)",
          site="cdd/compound/exmod_utils.py:_emit_symbol",
          example="exmod -m c20pkg --emit json_schema -o out"),
+    dict(id="C20-table-emit-of-a-declarative-model-all-names-the-class-binding-is-the-table-name", property="C20",
+         pattern=dict(check="exmod", clause="all_names_unbound", layout="sql_model", emit={"in": ["sqlalchemy_table", "sqlalchemy_hybrid"]}, dry_run=False),
+         what="a module whose class is a declarative SQLAlchemy model with a __tablename__ of its own, exposed with a Table-based emit kind: the generated file binds the table to the *table name* "
+              "(Alpha_rows = Table('Alpha', ...)) while its __all__ lists the class name (Alpha), which the file does not define",
+         site="cdd/sqlalchemy/parse.py (the interface of a declarative model is named after __tablename__) / cdd/compound/exmod_utils.py:_emit_symbol (__all__ built from the symbol name)",
+         example="c20pkg/alpha.py: class Alpha(Base): __tablename__ = 'Alpha_rows'; label = Column(String, primary_key=True); exmod -m c20pkg --emit sqlalchemy_table"),
 ]
 FIXED = [
     'fixed: property=C20 422f48f exmod --extra-module <m> raised AssertionError on every run, dry or real (the list collected by argparse was passed where one module name is expected); nothing was written',
